@@ -23,7 +23,7 @@ from typing import Dict, List, Optional, Set, Tuple
 
 from .kernels import base_name, const_int, infer_roles
 from .model import AnalysisError, Func, Repo, attr_chain, call_name, norm, walk_no_nested
-from .paths import enumerate_paths
+from .paths import enumerate_paths, infeasible
 from .report import RuleResult
 
 CORE = "groupby.core"
@@ -851,4 +851,254 @@ def rule_MG1(repo: Repo) -> RuleResult:
     else:
         res.bad(am, calls[0], f"levels = {sorted(vals) if vals else (norm(lv_e) if lv_e is not None else 'missing')}",
                 f"_add_margins must pass the requested levels (list({mp})) when a list is given and None otherwise")
+    return res
+
+
+# ------------------------------------------------------------------------------------------------ K7 (mask kind)
+
+def _truth_read_masks(f: Func) -> List[str]:
+    """mask parameters of a kernel that are read as `mask[row]` inside a branch test (i.e. as a per-row truth value)"""
+    out = []
+    for n in ast.walk(f.node):
+        if isinstance(n, (ast.If, ast.While, ast.IfExp)):
+            for x in ast.walk(n.test):
+                if isinstance(x, ast.Subscript) and isinstance(x.value, ast.Name) and x.value.id in f.named_params and "mask" in x.value.id:
+                    out.append(x.value.id)
+    return sorted(set(out))
+
+
+def _establishes_boolean(f: Func, t: ast.AST, pol: bool, mv: Set[str], none_counts: bool = True) -> bool:
+    """does deciding test `t` as `pol` establish that the mask (one of `mv`) is a boolean array (or, if none_counts, absent)?
+    A flag with a single definition stands for its defining test; `A or B` decided true by alternatives is handled by the
+    path enumerator (split tests), so only atoms arrive here - except through a flag, where a true disjunction of
+    boolean-kind tests is itself a boolean-kind test."""
+    if isinstance(t, ast.Name) and t.id not in mv:
+        defs = [s.value for s in walk_no_nested(f.node) if isinstance(s, ast.Assign) and len(s.targets) == 1
+                and isinstance(s.targets[0], ast.Name) and s.targets[0].id == t.id]
+        if len(defs) == 1:
+            d = defs[0]
+            if isinstance(d, ast.BoolOp) and isinstance(d.op, ast.Or) and pol is True:
+                return all(_boolean_kind_test(v, mv) for v in d.values)
+            return _establishes_boolean(f, d, pol, mv, none_counts)
+        return False
+    if not (_names(t) & mv):
+        return False
+    if isinstance(t, ast.Call) and norm(t.func).split(".")[-1] == "is_bool_dtype":
+        return pol is True
+    if isinstance(t, ast.Compare) and len(t.ops) == 1:
+        l, r = norm(t.left), norm(t.comparators[0]).replace("'", '"')
+        if isinstance(t.ops[0], (ast.Is, ast.IsNot)) and r == "None" and l in mv:
+            return none_counts and pol is isinstance(t.ops[0], ast.Is)
+        boolish = r in ('"b"', "bool", "np.bool_", "pl.Boolean", "numpy.bool_")
+        if boolish and (l.endswith(".dtype.kind") or l.endswith(".dtype")):
+            if isinstance(t.ops[0], ast.Eq):
+                return pol is True
+            if isinstance(t.ops[0], ast.NotEq):
+                return pol is False
+    return False
+
+
+def _boolean_kind_test(t: ast.AST, mv: Set[str]) -> bool:
+    """a test that is true only for boolean masks: is_bool_dtype(m), m.dtype == pl.Boolean, m.dtype.kind == 'b', or a
+    conjunction containing one"""
+    if isinstance(t, ast.BoolOp) and isinstance(t.op, ast.And):
+        return any(_boolean_kind_test(v, mv) for v in t.values)
+    if isinstance(t, ast.BoolOp) and isinstance(t.op, ast.Or):
+        return all(_boolean_kind_test(v, mv) for v in t.values)
+    if not (_names(t) & mv):
+        return False
+    if isinstance(t, ast.Call) and norm(t.func).split(".")[-1] == "is_bool_dtype":
+        return True
+    if isinstance(t, ast.Compare) and len(t.ops) == 1 and isinstance(t.ops[0], ast.Eq):
+        l, r = norm(t.left), norm(t.comparators[0]).replace("'", '"')
+        return r in ('"b"', "bool", "np.bool_", "pl.Boolean", "numpy.bool_") and (l.endswith(".dtype.kind") or l.endswith(".dtype"))
+    return False
+
+
+def rule_K7(repo: Repo) -> RuleResult:
+    """Mask kind.  The row-wise kernels (cumulative, rolling, shift/diff, EMA, row selection, group-sorted indexer) read
+    `mask[row]` as a truth value; only the reduction kernels understand integer positions and slices (D8).  Wherever a function
+    of the GroupBy layer (core.py, emas.py) binds a caller's mask into the arguments of anything but the reduction family -
+    a dict / signature.bind / keyword that ends in a row-wise function, a kernel, or a function chosen at run time - every path
+    to that binding must have established that the mask is boolean (is_bool_dtype / dtype.kind == 'b' / polars Boolean, the
+    other arm raising or converting) or absent.  Delegations inside the layer (self.method(mask=mask), ema_grouped) are
+    followed: the callee is itself subject to the rule."""
+    res = RuleResult("K7", "a mask is bound into row-wise kernels (which read mask[row] as a truth value) only after it was established to be boolean")
+    kernels = {f.name: _truth_read_masks(f) for f in repo.all_functions() if f.is_njit and _truth_read_masks(f)}
+    if len(kernels) < 8:
+        raise AnalysisError(f"K7: only {len(kernels)} kernels that read mask[row] as a truth value found (confirmed floor 8): {sorted(kernels)}")
+    core = repo.mod("groupby.core")
+    gb_methods = {q.split(".", 1)[1] for q in core.functions if q.startswith("GroupBy.") and q.count(".") == 1}
+    layer_funcs = {f.name: f for m in ("groupby.core", "emas") for f in repo.mod(m).functions.values()
+                   if not f.is_njit and any("mask" in p for p in f.named_params)}
+
+    def maskvars(f: Func) -> Set[str]:
+        mv = {p for p in f.named_params if "mask" in p}
+        changed = True
+        while changed:
+            changed = False
+            for s in walk_no_nested(f.node):
+                if isinstance(s, ast.Assign) and len(s.targets) == 1 and isinstance(s.targets[0], ast.Name) and s.targets[0].id not in mv \
+                        and _names(s.value) & mv and (isinstance(s.value, (ast.Name, ast.Subscript, ast.IfExp)) or (
+                            isinstance(s.value, ast.Call) and norm(s.value.func).split(".")[-1] in ("asarray", "_val_to_numpy", "array", "to_numpy"))):
+                    mv.add(s.targets[0].id)
+                    changed = True
+        return mv
+
+    def family(f: Func, callee: ast.AST) -> str:
+        """'reduction' | 'layer' | 'rowwise'  (rowwise = must be boolean: kernel, row-wise function, or not known)"""
+        if isinstance(callee, ast.Attribute):
+            ch = attr_chain(callee)
+            if callee.attr.startswith("group_") and ch and ch[0] in ("numba_funcs", "nb_funcs"):
+                return "reduction"
+            if callee.attr in gb_methods:
+                return "layer"                    # self.m(..) / GroupBy.m(..) / grouper.m(..): checked as a function of its own
+            return "rowwise"
+        if isinstance(callee, ast.Name):
+            if callee.id in kernels:
+                return "rowwise"
+            if callee.id in layer_funcs or callee.id in ("GroupBy",):
+                return "layer"
+            if callee.id.startswith("group_"):
+                return "reduction"
+            # a local that holds a function: look at its definition
+            defs = [s.value for s in walk_no_nested(f.node) if isinstance(s, ast.Assign) and len(s.targets) == 1
+                    and isinstance(s.targets[0], ast.Name) and s.targets[0].id == callee.id]
+            if defs and all(isinstance(d, ast.Call) and norm(d.func) == "getattr" and len(d.args) >= 2 and isinstance(d.args[1], ast.JoinedStr)
+                            and d.args[1].values and isinstance(d.args[1].values[0], ast.Constant) and str(d.args[1].values[0].value).startswith("group_")
+                            for d in defs):
+                return "reduction"
+            if defs and all(isinstance(d, ast.Call) and norm(d.func) == "getattr" and d.args and norm(d.args[0]) in ("self", "GroupBy") for d in defs):
+                return "layer"                    # a method of the grouping chosen by name: subject to the rule itself
+            return "rowwise"
+        return "rowwise"
+
+    def require(f: Func, site: ast.AST, what: str, mv: Set[str]):
+        stmt = next((s for s in walk_no_nested(f.node) if isinstance(s, ast.stmt) and not isinstance(s, (ast.If, ast.For, ast.While, ast.With, ast.Try, ast.FunctionDef, ast.ClassDef))
+                     and any(x is site for x in ast.walk(s))), None)
+        if stmt is None:
+            raise AnalysisError(f"K7: statement of the binding {what} in {f.qualname} not found")
+        paths = [p for p in enumerate_paths(f.node.body, limit=60000, split_bool=True) if any(s is stmt for s in p.stmts) and not infeasible(p)]
+        if not paths:
+            raise AnalysisError(f"K7: no path reaches the binding {what} in {f.qualname}")
+        bad = [p for p in paths if not any(_establishes_boolean(f, t, pol, mv) for t, pol in p.conds if isinstance(t, ast.AST))]
+        construct = f"{f.qualname}: {what}"
+        if bad:
+            res.bad(f, site, construct,
+                    "the caller's mask is bound into the arguments of a row-wise kernel (or of a function chosen at run time) on a path that "
+                    "did not establish that it is boolean: these kernels read mask[row] as a truth value, so integer positions are misread "
+                    "(position 0 = 'not selected', rows beyond len(mask) read past the end) instead of being rejected or converted",
+                    path=bad[0].describe())
+        else:
+            res.ok(f, site, construct, f"boolean (or absent) on all {len(paths)} paths")
+
+    n_sites = 0
+    for f in layer_funcs.values():
+        mv = maskvars(f)
+        dict_vars: Dict[str, ast.AST] = {}      # local dicts that hold the mask under a key 'mask'
+        for s in walk_no_nested(f.node):
+            if isinstance(s, ast.Assign) and len(s.targets) == 1 and isinstance(s.targets[0], ast.Name):
+                v = s.value
+                if isinstance(v, ast.Call) and norm(v.func) == "dict" and any(k.arg and "mask" in k.arg and _names(k.value) & mv for k in v.keywords):
+                    dict_vars[s.targets[0].id] = s
+                if isinstance(v, ast.Dict) and any(isinstance(k, ast.Constant) and "mask" in str(k.value) and _names(val) & mv
+                                                   for k, val in zip(v.keys, v.values)):
+                    dict_vars[s.targets[0].id] = s
+            if isinstance(s, ast.Assign) and isinstance(s.targets[0], ast.Subscript) and isinstance(s.targets[0].value, ast.Name) \
+                    and isinstance(s.targets[0].slice, ast.Constant) and "mask" in str(s.targets[0].slice.value) and _names(s.value) & mv:
+                dict_vars[s.targets[0].value.id] = s
+        for c in walk_no_nested(f.node):
+            if not isinstance(c, ast.Call):
+                continue
+            direct = [k for k in c.keywords if k.arg and "mask" in k.arg and _names(k.value) & mv]
+            spread = [k for k in c.keywords if k.arg is None and isinstance(k.value, ast.Name) and k.value.id in dict_vars]
+            if not direct and not spread:
+                continue
+            callee = c.func
+            if norm(callee) == "dict":
+                continue                        # handled where the dict is spread into a call
+            if isinstance(callee, ast.Attribute) and callee.attr in ("bind", "bind_partial") and isinstance(callee.value, ast.Call) \
+                    and norm(callee.value.func).endswith("signature") and callee.value.args:
+                target = callee.value.args[0]
+                fam = "rowwise" if isinstance(target, ast.Name) and target.id in f.named_params else family(f, target)
+                what = f"signature({norm(target)}).bind(.. mask ..)"
+            else:
+                fam = family(f, callee)
+                what = f"{norm(callee)}(.. mask ..)"
+            if fam in ("reduction", "layer"):
+                continue
+            n_sites += 1
+            require(f, c, what, mv)
+    res.analysed = {"truth_reading_kernels": sorted(kernels), "binding_sites": n_sites}
+    if n_sites < 2:
+        raise AnalysisError(f"K7: only {n_sites} row-wise mask binding sites found in the GroupBy layer (confirmed floor 2)")
+    return res
+
+
+# ------------------------------------------------------------------------------------------------ D9b (scatter conversion)
+
+def rule_D9b(repo: Repo) -> RuleResult:
+    """Order- and multiplicity-forgetting conversions of a row selection.  `b = all-False; b[mask] = True` turns positions (or a
+    slice) into a boolean row mask: repeated positions collapse, the given order is lost.  Such a scatter is accepted only on
+    paths where the selection cannot be positional any more - the mask is absent, or positions were established strictly
+    increasing (np.diff(..) <= 0 rejected), or the mask was established not to be an integer array - otherwise the same call
+    gives different answers on a chunked and an unchunked key, and differs from filtering first (C05: repeated positions)."""
+    res = RuleResult("D9b", "positions are never turned into a boolean row mask by scatter (b[mask] = True) unless established strictly increasing")
+    n = 0
+    for modname in ("groupby.core", "groupby.numba", "emas"):
+        for f in repo.mod(modname).functions.values():
+            if f.is_njit or not any("mask" in p for p in f.named_params):
+                continue
+            mv = {p for p in f.named_params if "mask" in p}
+            changed = True
+            while changed:
+                changed = False
+                for s in walk_no_nested(f.node):
+                    if isinstance(s, ast.Assign) and len(s.targets) == 1 and isinstance(s.targets[0], ast.Name) \
+                            and s.targets[0].id not in mv and _names(s.value) & mv and not isinstance(s.value, (ast.BoolOp, ast.Compare)) and not (
+                                isinstance(s.value, ast.Call) and norm(s.value.func).split(".")[-1] in ("full", "zeros", "ones", "empty", "len", "is_bool_dtype", "isinstance")):
+                        mv.add(s.targets[0].id)
+                        changed = True
+            false_arrays = {s.targets[0].id for s in walk_no_nested(f.node) if isinstance(s, ast.Assign) and len(s.targets) == 1
+                            and isinstance(s.targets[0], ast.Name) and isinstance(s.value, ast.Call)
+                            and ((norm(s.value.func).split(".")[-1] == "full" and len(s.value.args) >= 2 and isinstance(s.value.args[1], ast.Constant) and s.value.args[1].value is False)
+                                 or (norm(s.value.func).split(".")[-1] == "zeros" and any(k.arg == "dtype" and "bool" in norm(k.value) for k in s.value.keywords))
+                                 or (norm(s.value.func).split(".")[-1] == "zeros" and len(s.value.args) >= 2 and "bool" in norm(s.value.args[1])))}
+            scatters = [s for s in walk_no_nested(f.node) if isinstance(s, ast.Assign) and isinstance(s.targets[0], ast.Subscript)
+                        and isinstance(s.targets[0].value, ast.Name) and s.targets[0].value.id in false_arrays
+                        and _names(s.targets[0].slice) & mv and isinstance(s.value, ast.Constant) and s.value.value in (True, 1)]
+            for sc in scatters:
+                n += 1
+                paths = [p for p in enumerate_paths(f.node.body, limit=60000, split_bool=True) if any(s is sc for s in p.stmts) and not infeasible(p)]
+
+                def safe(p) -> bool:
+                    for t, pol in p.conds:
+                        if not isinstance(t, ast.AST):
+                            continue
+                        if isinstance(t, ast.Compare) and len(t.ops) == 1 and norm(t.comparators[0]) == "None" and norm(t.left) in mv:
+                            if pol is isinstance(t.ops[0], ast.Is):
+                                return True                                   # no mask: the scatter selects by `None` (everything)
+                        if _establishes_boolean(f, t, pol, mv, none_counts=False):
+                            return True                                       # a boolean mask: the scatter is boolean indexing
+                        txt = norm(t)
+                        if "diff(" in txt and _names(t) & mv and any(isinstance(x, ast.Compare) and isinstance(x.ops[0], (ast.LtE, ast.Lt))
+                                                                    and const_int(x.comparators[0]) == 0 for x in ast.walk(t)) and pol is False:
+                            return True                                       # strictly increasing established
+                    return False
+                bad = [p for p in paths if not safe(p)]
+                construct = f"{f.qualname}: {norm(sc)}"
+                if not paths:
+                    raise AnalysisError(f"D9b: no path reaches {construct}")
+                if bad:
+                    res.bad(f, sc, construct,
+                            "a row selection given as positions (or a slice) is turned into a boolean row mask by scatter on a path that did not "
+                            "establish the positions to be strictly increasing: repeated positions collapse and the given order is lost, so "
+                            "count/sum differ from filtering first and first/last follow the row order instead of the order given",
+                            path=bad[0].describe())
+                else:
+                    res.ok(f, sc, construct, f"only without a mask or with strictly increasing positions ({len(paths)} paths)")
+    res.analysed = {"scatter_conversions": n}
+    if n == 0:
+        res.ok(repo.func("groupby.core", "GroupBy._resolve_mask_argument_into_chunks"), repo.func("groupby.core", "GroupBy._resolve_mask_argument_into_chunks").node,
+               "no scatter conversion of a mask in core.py / numba.py / emas.py", "", nontrivial=False)
     return res
